@@ -2,7 +2,7 @@
    About determine_beta of Model/SMC.v at exact reals, for every efficiency curve (= every
    population), plus the translated kernels (Gen/Kernels.v) that define that curve in the code. *)
 From Coq Require Import Reals List Bool Arith Lra.
-From AV Require Import Lib.Num Lib.Vec Gen.Kernels Model.SMC Proofs.Schedule Proofs.C02 Proofs.C07.
+From AV Require Import Lib.Num Lib.Vec Gen.Kernels Model.SMC Proofs.Schedule Proofs.C02 Proofs.C07 Proofs.C07mono.
 Import ListNotations.
 Open Scope R_scope.
 
@@ -44,7 +44,32 @@ Theorem C07_target_in_force : forall e0 e1 rate beta scalar,
   /\ current_target_efficiency_scalar scalar beta = scalar.
 Proof. exact cte_spec. Qed.
 
+(* the monotonicity hypothesis above is not an assumption about the code: the curve the code's
+   temperature search queries — effective_sample_size(samples.log_weights(b)) / len(samples), the
+   translated kernels — is non-increasing in b on [beta0, oo) for EVERY population (d/db log ESS is
+   twice the difference of two tilted means, ordered by Cauchy-Schwarz) ... *)
+Theorem C07_code_curve_nonincreasing : forall {X} (x : list X) ll lp lq beta0 b1 b2,
+  ll <> [] -> length x = length ll -> length lp = length ll -> length lq = length ll ->
+  beta0 <= b1 <= b2 ->
+  effective_sample_size (log_weights x ll lp lq beta0 b2) / vlen x
+  <= effective_sample_size (log_weights x ll lp lq beta0 b1) / vlen x.
+Proof. exact @code_curve_nonincreasing. Qed.
+(* ... hence once the upper bracket misses the target, every larger temperature misses it *)
+Theorem C07_code_curve_maximal : forall {X} (x : list X) ll lp lq beta0 bb target,
+  ll <> [] -> length x = length ll -> length lp = length ll -> length lq = length ll ->
+  beta0 <= bb ->
+  effective_sample_size (log_weights x ll lp lq beta0 bb) / vlen x < target ->
+  forall y, bb <= y ->
+  effective_sample_size (log_weights x ll lp lq beta0 y) / vlen x < target.
+Proof. exact @code_curve_maximal. Qed.
+(* the pure statement about weights exp(d * a_i), d >= 0 *)
+Theorem C07_ess_of_tempered_weights_nonincreasing : forall (a : list R) s t, a <> [] -> 0 <= s <= t ->
+  ess_of (map exp (map (fun x => t * x) a)) <= ess_of (map exp (map (fun x => s * x) a)).
+Proof. exact ess_incremental_nonincreasing. Qed.
 Print Assumptions C07_bracket.
 Print Assumptions C07_maximal_if_monotone.
 Print Assumptions C07_incremental_weight.
 Print Assumptions C07_target_in_force.
+Print Assumptions C07_code_curve_nonincreasing.
+Print Assumptions C07_code_curve_maximal.
+Print Assumptions C07_ess_of_tempered_weights_nonincreasing.
